@@ -273,7 +273,12 @@ static void onMessage(const TcpConnectionPtr& c, Buffer* b, Timestamp)
   g_events.push_back("Msg@" + std::to_string(threadIndex()) + "#" + std::to_string(id));
 }
 static void onWriteComplete(const TcpConnectionPtr&) {}
-static void nullOutput(const char*, int) {}
+static void nullOutput(const char* msg, int len)
+{
+  // only what muduo itself considers fatal (e.g. EventLoop::abortNotInLoopThread) is shown, on stderr
+  std::string s(msg, static_cast<size_t>(len));
+  if (s.find(" FATAL ") != std::string::npos) fprintf(stderr, "%s", s.c_str());
+}
 static void nullFlush() {}
 
 static int countFds()
